@@ -284,7 +284,7 @@ def main(prop):
                   "pickle round-trip of the index; tell()/seek()/readline() of text files and of pysam's BGZF reader (C17's interface): offsets are resolved to record ordinals by the harness"]
     ck.assumptions = ["valid rGFA; GAF records well-formed, over nodes of the graph; unique read names in generated files (records are identified by name)"]
     ck.canon = ["index offsets resolved to record ordinals; entries compared as sets (the property says 'contains')", "records identified by read name"]
-    mods = ["Gaftools.Props.C03", "Gaftools.Props.TieA", "Gaftools.Props.Glue", "Gaftools.Props.Glue2", "Gaftools.Props.Reflect"] + (["Gaftools.Props.TieA2"] if prop == "C05" else [])
+    mods = ["Gaftools.Props.C03", "Gaftools.Props.TieA", "Gaftools.Props.Glue", "Gaftools.Props.Glue2", "Gaftools.Props.Reflect"] + (["Gaftools.Props.TieA2", "Gaftools.Props.TextLayer"] if prop == "C05" else [])
     from core import LEAN
     mods = [m for m in mods if os.path.exists(os.path.join(LEAN, *m.split(".")) + ".lean")]
     ck.lean_build(mods)
@@ -299,6 +299,11 @@ def main(prop):
             ck.rule = ("4 queries per generated file: " + ("node lists with repeats and unaligned nodes" if prop == "C04" else "1-3 regions: inside one node, on node boundaries, spanning several nodes, over unaligned nodes, haplotype contigs")
                        + "; with and without --format; plain/BGZF; non-trivial = file with >= 2 records where the query selects some but not all records, or nothing")
             c04_c05(ck, prop, tmp, 80 if quick else 2000)
+            if prop == "C05":
+                # the region syntax itself (CONTIG:a-b as get_unstable / search split and convert it): Model/TextLayer.lean
+                # parseRegion, theorems in Props/TextLayer.lean (Audit/C05_extra.lean)
+                import p_textlayer
+                p_textlayer.c05_regions(ck, 2500 if quick else 25000)
     finally:
         shutil.rmtree(tmp, ignore_errors=True)
     return ck.finish()
